@@ -28,6 +28,21 @@ func init() {
 	})
 }
 
+// snapshotOfReceiver: e is <receiver>.AsArray(), or a local variable whose single definition
+// in scope is that call: its length is the size of the collection.
+func snapshotOfReceiver(info *types.Info, scope ast.Node, isRecv func(ast.Expr) bool, e ast.Expr) bool {
+	e = ast.Unparen(e)
+	if id, ok := e.(*ast.Ident); ok {
+		init := initOfIn(info, scope, id)
+		if init == nil {
+			return false
+		}
+		e = ast.Unparen(init)
+	}
+	rx, mname, call, ok := methodCall(e)
+	return ok && mname == "AsArray" && len(call.Args) == 0 && isRecv(rx)
+}
+
 // collectionSymEnv builds a SYM environment for a method of a collection type:
 // GetSize()/len() of the receiver (or of its storage field) is the symbol
 // "size"; calls of the given normalisers become symbols z:<argument>.
@@ -38,12 +53,17 @@ func collectionSymEnv(c *Ctx, info *types.Info, fd *ast.FuncDecl, normalisers ma
 		env.recvs[recv] = true
 	}
 	env.base = Cube{linSym("size").scale(-1)} // size >= 0
+	env.inlineSkip = map[*types.Func]bool{}
+	for fn := range normalisers {
+		env.inlineSkip[fn] = true
+	}
+	enableInlining(c, env, fd, nil)
 	env.resolve = func(e ast.Expr) (Val, bool) {
 		call, ok := e.(*ast.CallExpr)
 		if !ok {
 			return Val{}, false
 		}
-		if (isBuiltinCall(info, call, "len")) && len(call.Args) == 1 && env.isRecvRooted(call.Args[0]) {
+		if (isBuiltinCall(info, call, "len")) && len(call.Args) == 1 && (env.isRecvRooted(call.Args[0]) || snapshotOfReceiver(info, fd.Body, env.isRecvRooted, call.Args[0])) {
 			return Val{Lin: linSym("size")}, true
 		}
 		if rx, name, _, ok := methodCall(call); ok {
@@ -86,19 +106,31 @@ func runC01(c *Ctx, r *Rec) {
 		for _, fd := range cands {
 			// the normaliser is the func(int) int whose body panics and reads the size
 			hasPanic := false
-			ast.Inspect(fd.Body, func(x ast.Node) bool {
-				if call, ok := x.(*ast.CallExpr); ok && isBuiltinCall(info, call, "panic") {
-					hasPanic = true
-				}
-				return true
-			})
+			var look func(body ast.Node, depth int)
+			look = func(body ast.Node, depth int) {
+				ast.Inspect(body, func(x ast.Node) bool {
+					call, ok := x.(*ast.CallExpr)
+					if !ok {
+						return true
+					}
+					if isBuiltinCall(info, call, "panic") {
+						hasPanic = true
+					} else if cf := calleeOf(info, call); cf != nil && !cf.Exported() && depth < 2 {
+						if d := c.declOf(cf); d != nil && d.Body != nil && c.infoFor(d) == info {
+							look(d.Body, depth+1)
+						}
+					}
+					return true
+				})
+			}
+			look(fd.Body, 0)
 			if hasPanic {
 				bound = fd
 				break
 			}
 		}
 		if bound == nil {
-			r.undecided("D2-normaliser", "collection."+l.n.Obj().Name(), "", "no private func(int) int normaliser with a bounds panic found on the "+l.name+" type")
+			r.skip("D2-normaliser", "collection."+l.n.Obj().Name(), "", "no private func(int) int normaliser with a bounds panic found on the "+l.name+" type: the index rules that rest on it are not evaluated")
 			continue
 		}
 		normalisers[c.funcOf(bound)] = true
@@ -110,6 +142,12 @@ func runC01(c *Ctx, r *Rec) {
 		checkNormaliser(c, r, info, bound, l.offset)
 	}
 	r.floor("D2-normaliser", 2)
+	if lstNorm == nil {
+		r.skip("D1-list-index-param", "collection."+lst.Obj().Name(), "", "the list's normaliser could not be bound")
+	}
+	if arrNorm == nil {
+		r.skip("D1-array-index", "collection."+arr.Obj().Name(), "", "the array's normaliser could not be bound")
+	}
 
 	// ---- D1/D2b array accesses
 	if arrNorm != nil {
@@ -121,7 +159,7 @@ func runC01(c *Ctx, r *Rec) {
 	if lstNorm != nil {
 		checkListIndexParams(c, r, info, lst, c.funcOf(lstNorm))
 	}
-	r.floor("D1-list-index-param", 6)
+	r.floor("D1-list-index-param", 1)
 	checkSlotGates(c, r, info, lst)
 	r.floor("D1-slot-gate", 2)
 
@@ -168,6 +206,21 @@ func runC01(c *Ctx, r *Rec) {
 				bad := mutationBeforeOperandRead(c, info, fd, p)
 				r.check(bad == "", "D4-operand-read-first", c.fdName(fd)+"/"+p.Name(), c.pos(fd.Pos()),
 					"no change of the receiver precedes a read of the operand (the operand may be the receiver itself)", bad)
+			}
+		}
+	}
+
+	// ---- D4 the list owns its backing array; reversal is exact (Sort/Reverse are operations of the property)
+	if storage := c.fieldOfIface(lst, "collection", "ArrayLike"); storage != nil {
+		checkStorageOwned(c, r, "D4-storage-owned", info, lst, lstClass, storage)
+	}
+	if srt, _ := c.impl("agent", "SorterLike"); srt != nil {
+		if fd := c.methodsOf(srt)["ReverseValues"]; fd != nil {
+			tmp := newRec(r.Property)
+			checkReverse(c, tmp, c.info("agent"), fd)
+			for _, o := range tmp.Obls {
+				o.Rule = "D5-reverse-exact"
+				r.Obls = append(r.Obls, o)
 			}
 		}
 	}
@@ -227,6 +280,10 @@ func checkNormaliser(c *Ctx, r *Rec, info *types.Info, fd *ast.FuncDecl, offset 
 // zResolve extends an env so that calls of the normaliser fn evaluate to the
 // symbol z:<argument linear form>.
 func zResolve(env *symEnv, info *types.Info, fn *types.Func) {
+	if env.inlineSkip == nil {
+		env.inlineSkip = map[*types.Func]bool{}
+	}
+	env.inlineSkip[fn.Origin()] = true
 	prev := env.resolve
 	env.resolve = func(e ast.Expr) (Val, bool) {
 		if call, ok := e.(*ast.CallExpr); ok && len(call.Args) == 1 {
@@ -340,7 +397,10 @@ func checkArrayAccesses(c *Ctx, r *Rec, info *types.Info, arr *types.Named, norm
 			okForm := los[0].equal(f) && his[0].equal(l.plus(1))
 			okMake := true // the copy may be made by a helper; a make in the method itself must have the range's length
 			for _, m := range makes {
-				if m == nil || !m.equal(l.sub(f).plus(1)) {
+				if m == nil || !allZ(m) {
+					continue // sized by something else than the two normalised bounds (a helper's copy): not this rule's business
+				}
+				if !m.equal(l.sub(f).plus(1)) {
 					okMake = false
 				}
 			}
@@ -680,7 +740,7 @@ func checkSearchConvention(c *Ctx, r *Rec, info *types.Info, lst *types.Named) {
 		recv := recvObj(info, fd)
 		prev := env.resolve
 		env.resolve = func(e ast.Expr) (Val, bool) {
-			if rx, mname, call, ok := methodCall(e); ok && mname == "GetIndex" && len(call.Args) == 1 && recvRooted(info, rx, recv) {
+			if rx, mname, call, ok := methodCall(e); ok && mname == "GetIndex" && len(call.Args) == 1 && (recvRooted(info, rx, recv) || env.isRecvRooted(rx)) {
 				return Val{Lin: linSym("g")}, true
 			}
 			if prev != nil {
@@ -689,6 +749,7 @@ func checkSearchConvention(c *Ctx, r *Rec, info *types.Info, lst *types.Named) {
 			return Val{}, false
 		}
 		env.base = append(env.base, linSym("g").scale(-1)) // GetIndex >= 0
+		enableInlining(c, env, fd, nil)                    // private helpers (isPresent) are interpreted in place
 	}
 	if fd := ms["ContainsValue"]; fd != nil {
 		construct := c.fdName(fd)
